@@ -656,6 +656,22 @@ func C15(p *Prog, r *Run) {
 		c.inverseNames()
 		c.activationNames()
 	})
+
+	r.Rule("C15.6", "organism binary form: the header line carries fitness, generation and genome id, each scanned back into the same field at the same position; the genome follows in the same buffer and is restored with the scanned id", func() {
+		c.organismBinary()
+	})
+
+	r.Rule("C15.7", "population re-framing: every write into the buffer handed to the line-oriented genome reader ends in a newline unless the reader consumes the buffer next; record lines are copied verbatim; every restored genome becomes an organism in file order", func() {
+		c.populationIO()
+	})
+
+	r.Rule("C15.8", "gob streams: Encode and Decode of experiment, trial, generation and champion organism list the same values in the same order under the same conditions; lists are length-prefixed and decoded for every index", func() {
+		c.gobPairs()
+	})
+
+	r.Rule("C15.9", "solver model: every model field of the fast solver is saved in one holder field and restored from the same holder field (constructor argument position or later store); modules element-wise; activation types as registry names", func() {
+		c.solverModel()
+	})
 }
 
 func (c *c15) plainGene() {
